@@ -46,7 +46,7 @@ reg(
     "machine over definitions and sections); TLC enumerates expression ASTs (with evaluator lemmas) and programs (exhaustive single statements, "
     "-simulate for multi-construct programs); a renderer prints them as BD text with minimal parentheses, the real BDParser + "
     "BootImageV21.load_from_config process the text, TLC (BdTrace) re-executes the program on the state machine and decides every logged "
-    "option value, section id and command Key blobs, encrypt and keywrap statements are decided by an owner clause (the loaded bytes are decrypted / unwrapped with every defined key blob through an independent OTFAD model). System lane spec/SYS/SbLoadTrace.tla: BdProg composed with the SB2 boot-ROM automaton of C04 and the mboot link of C10 - BD text -> SB2.1 file -> receive_sb_file -> device twin -> ROM executor, decoded sections / commands compared with the language semantics.",
+    "option value, section id and command Key blobs, encrypt and keywrap statements are decided by an owner clause (the loaded bytes are decrypted / unwrapped with every defined key blob through an independent OTFAD model). System lane spec/SYS/SbLoadTrace.tla: BdProg composed with the SB2 boot-ROM automaton of C04 and the mboot link of C10 - BD text -> SB2.1 file -> receive_sb_file -> device twin -> ROM executor, decoded sections / commands compared with the language semantics; every third program goes through the nxpimage sb21 export and blhost receive-sb-file command-line tools.",
     "Exhaustive over all depth<=2 expression ASTs in the asserted domain (18 binary, 3 unary operators, size suffixes) and over the single-statement "
     "menu (16 statement kinds x operand forms; quick tier: seeded subset); simulated for multi-section programs with constants referring to earlier "
     "constants, several definitions per line, several options blocks, sources/extern files and 12 unsupported constructs that must be refused.",
